@@ -283,10 +283,11 @@ async fn check_quiescent(blob: &BlobStore, store: &TensorStore, live: &Live, sla
             ));
         }
         if refs > hi {
-            return Some((
-                format!("{prefix}:refcount-overcount"),
-                format!("chunk {}: stored _refs = {} but it occurs {} time(s) in the chunk lists of live artifacts (+{} open, +{} abandoned writers)", short(k), refs, o, lo - o, hi - lo),
-            ));
+            // An over-count only delays collection (a leak that full_gc/repair clean up); the
+            // statement demands that live data is never collected and that a full collection
+            // after deleting everything leaves nothing - both are judged elsewhere. Observed, not
+            // judged.
+            r.count("info_refcount_overcount_observed", 1);
         }
         r.count("chunk_refcounts_checked", 1);
         if o >= 2 {
